@@ -547,6 +547,20 @@ func genTF(r *vh.Rng, pAbsent, pBad int) TF {
 	return TF{K: 2, T: vh.Pick(r, tpool), Z: r.Intn(2)}
 }
 
+// genRefDense: references that mostly hit the few policies / log confs of the DoS-only family
+func genRefDense(r *vh.Rng) string {
+	x := r.Intn(100)
+	switch {
+	case x < 45:
+		return vh.Pick(r, names[:2])
+	case x < 90:
+		return "n1/" + vh.Pick(r, names[:2])
+	case x < 95:
+		return "zz"
+	}
+	return "n1/a/b"
+}
+
 func genRef(r *vh.Rng, ns string) string {
 	x := r.Intn(100)
 	switch {
@@ -579,6 +593,8 @@ func genHistory(r *vh.Rng, id int, malformed bool, family int) Case {
 			c.PKeys = append(c.PKeys, []string{n, m})
 		}
 	}
+	// GetValidDosEx with a namespaced reference and a foreign parent namespace (getNsName)
+	c.PKeys = append(c.PKeys, []string{"zz", "n1/a"}, []string{"n2", "n1/b"})
 	pwf := 90
 	if malformed {
 		pwf = 45
@@ -612,13 +628,23 @@ func genHistory(r *vh.Rng, id int, malformed bool, family int) Case {
 		default:
 			op.K = 5
 		}
+		if family == 2 && (op.K == 3 || op.K == 4) { // few DoS policies / log confs, so references hit
+			op.Ns, op.Name = "n1", vh.Pick(r, names[:2])
+		}
+		if family == 2 && op.K == 5 && r.Chance(2, 3) {
+			op.Ns = "n1"
+		}
 		ik := fmt.Sprintf("%d|%s/%s", op.K, op.Ns, op.Name)
 		st := incs[ik]
 		if st == nil {
 			st = &inc{}
 			incs[ik] = st
 		}
-		if r.Chance(22, 100) {
+		delp := 22
+		if family == 2 && (op.K == 3 || op.K == 4) && st.exists {
+			delp = 45
+		}
+		if r.Chance(delp, 100) {
 			op.Del = true
 			st.exists = false
 			c.Hist = append(c.Hist, op)
@@ -632,10 +658,14 @@ func genHistory(r *vh.Rng, id int, malformed bool, family int) Case {
 		}
 		op.UID, op.TS = st.uid, st.ts // unchanged while the object exists (K2)
 		op.WF = r.Intn(100) < pwf
-		if family == 2 && op.K != 5 && !malformed {
-			op.WF = r.Intn(100) < 70
-			if op.K == 4 {
-				op.WF = r.Intn(100) < 50
+		if family == 2 && !malformed {
+			switch op.K {
+			case 3:
+				op.WF = r.Intn(100) < 75
+			case 4:
+				op.WF = r.Intn(100) < 65
+			case 5:
+				op.WF = r.Intn(100) < 95
 			}
 		}
 		switch op.K {
@@ -688,10 +718,16 @@ func genHistory(r *vh.Rng, id int, malformed bool, family int) Case {
 			}
 			if op.PolRef == "" && !r.Chance(1, 5) {
 				op.PolRef = genRef(r, op.Ns)
+				if family == 2 {
+					op.PolRef = genRefDense(r)
+				}
 			}
 			if r.Chance(3, 5) || (family == 2 && r.Chance(1, 2)) {
 				op.HasLog = true
 				op.LogRef = genRef(r, op.Ns)
+				if family == 2 {
+					op.LogRef = genRefDense(r)
+				}
 				op.LogDest = "stderr"
 				y := r.Intn(100)
 				if y < 30 {
